@@ -12,10 +12,10 @@ import (
 
 // Loaded holds the SSA program built from /repo's current working tree.
 type Loaded struct {
-	Prog   *ssa.Program
-	Pkgs   map[string]*ssa.Package // by import path
-	PPkgs  map[string]*packages.Package
-	LoadS  float64
+	Prog    *ssa.Program
+	Pkgs    map[string]*ssa.Package // by import path
+	PPkgs   map[string]*packages.Package
+	LoadS   float64
 	RepoDir string
 }
 
@@ -26,7 +26,7 @@ func loadRepo(repoDir string, pkgPaths []string) (*Loaded, error) {
 	cfg := &packages.Config{
 		Mode: packages.LoadSyntax,
 		Dir:  repoDir,
-		Env: append(os.Environ(), "GOFLAGS=-mod=mod", "GOPROXY=off", "GOSUMDB=off", "GOTOOLCHAIN=local"),
+		Env:  append(os.Environ(), "GOFLAGS=-mod=mod", "GOPROXY=off", "GOSUMDB=off", "GOTOOLCHAIN=local"),
 	}
 	pats := []string{}
 	for _, p := range pkgPaths {
